@@ -858,6 +858,17 @@ def system_part(pid, tier, seed):
     sim_h, sim_stats = world.simulate(48 if quick else 400, 10, seed + 14, timeout=sz["mc_timeout"], max_convs=8, system=True)
     for k, (h, _l, _s) in enumerate(sim_h):
         oplists.append(world.conc_hist(h, world.CONCRETE[CMAPS[tier][k % len(CMAPS[tier])]]))
+    # converters that come from a LOADER (records built from bare pairs), get synonyms and a nested URI prefix merged in, are
+    # written in every format and read back; and the converter read back is written again
+    pmap = [["GO", "http://purl.obolibrary.org/obo/GO_"], ["CHEBI", "http://purl.obolibrary.org/obo/CHEBI_"]]
+    for fmt, syn, expand in (("epm", False, False), ("jsonld", True, True), ("jsonld", True, False), ("jsonld", False, True), ("shacl", True, False), ("shacl", False, False), ("tsv", False, False)):
+        for loader, data in (("prefix_map", pmap), ("priority", [[a, [b, b + "alt/"]] for a, b in pmap]), ("reverse", [[b, a] for a, b in pmap])):
+            oplists.append([{"k": "load", "loader": loader, "data": data, "delim": ":"},
+                            {"k": "add", "i": 1, "rec": {"p": "GO", "u": "http://purl.obolibrary.org/obo/GO_", "ps": ["go", "gomf"], "us": ["https://identifiers.org/GO:"], "pat": None},
+                             "cs": True, "mg": True, "via": "prefix"},
+                            {"k": "write", "i": 1, "fmt": fmt, "syn": syn, "expand": expand}, {"k": "read", "j": 1},
+                            {"k": "add", "i": 2, "rec": {"p": "GO", "u": "http://purl.obolibrary.org/obo/GO_", "ps": ["late"], "us": [], "pat": None}, "cs": True, "mg": True, "via": "record"},
+                            {"k": "write", "i": 2, "fmt": "epm", "syn": False, "expand": False}, {"k": "read", "j": 2}])
     opts = {"probe_cap": 8, "full_n": 0, "probe_inputs": True, "methods": LIGHT}
     batch = world.execute(oplists, seed, opts, {pid})
     fails, st = tlc.validate_traces(batch, timeout=sz["tr_timeout"])
